@@ -1,6 +1,6 @@
 CONSTANTS N = 2  D = 2  MaxExtra = 3
   ShapeIds = {"bent"}
-  Vals = {3}  Sparse = {FALSE, TRUE}
+  Vals = {0, 3}  Sparse = {FALSE}
 INIT Init
 NEXT Next
 CONSTRAINT Emit
